@@ -341,6 +341,50 @@ func (sc *c13Scenario) Run(s *simrt.Sim) {
 		}
 		sc.probes["ask-object-reused-after-successful-asks"]++
 	}
+	// scatter/gather: several asks built over ONE asker-owned buffered reply channel, sent one after the other, the
+	// answers collected afterwards - every request's answer arrives (an earlier answer waiting in the channel is not
+	// in the way of a later request)
+	{
+		shared := make(chan int, 4)
+		want := map[int]bool{}
+		var got []int
+		gt := s.Go("gatherer", func() {
+			h.Do("gatherer", "AskChannel x3 over one reply channel, then gather", nil, func() (interface{}, error) {
+				for k := 0; k < 3; k++ {
+					msg++
+					rr := &c13Req{msg: msg, spec: c13Ask{Via: "gather", Policy: "now"}}
+					byMsg[msg] = rr
+					want[c13f(msg)] = true
+					fpgo.AskNewByOptionsGenerics[int, int](msg, shared).AskChannel(proxy)
+					s.Sleep(time.Millisecond) // the answer is in the channel by now
+				}
+				for k := 0; k < 3; k++ {
+					tk := simrt.B(-4)
+					tm := time.NewTimer(10 * time.Minute)
+					select {
+					case v := <-shared:
+						simrt.U(tk)
+						got = append(got, v)
+					case <-tm.C:
+						simrt.U(tk)
+					}
+					tm.Stop()
+				}
+				return nil, nil
+			})
+		})
+		ok := s.WaitUntilTimeout(gt.Done, 60*time.Minute)
+		bad := !ok || len(got) != 3
+		for _, v := range got {
+			if !want[v] {
+				bad = true
+			}
+			delete(want, v)
+		}
+		if bad {
+			sc.extra = append(sc.extra, Violation{Clause: "correlation", Fingerprint: "asks-sharing-one-reply-channel", Detail: fmt.Sprintf("three asks over one asker-owned buffered reply channel, each answered at once: gathered %v, still missing the answers %v (finished=%v)", got, want, ok)})
+		}
+	}
 	// The library's default Actor is a closed placeholder: it never answers, so an ask with a timeout ends with the
 	// timeout error (and does not hang in the hand-over)
 	{
